@@ -1080,8 +1080,10 @@ func hash32(s string) uint32 {
 	return h
 }
 
-func (ck *checker) distinctDigests() int {
-	files, _ := filepath.Glob(filepath.Join(buildDir, "digests-*.bin"))
+func (ck *checker) distinctDigests() int { return countDistinct("digests-*.bin") }
+
+func countDistinct(pattern string) int {
+	files, _ := filepath.Glob(filepath.Join(buildDir, pattern))
 	set := map[uint64]struct{}{}
 	for _, f := range files {
 		b, err := os.ReadFile(f)
@@ -1131,6 +1133,7 @@ func (ck *checker) writeEvidence(wall time.Duration, nViol int, knownSeen []stri
 		samples = append(samples, "no non-trivial run was sampled")
 	}
 	distinct := ck.distinctDigests()
+	distinctSched := countDistinct("digests-*.bin.sched")
 	allComplete := len(ck.info.Enumerated) > 0
 	enumComplete := map[string]bool{}
 	for _, c := range ck.info.Enumerated {
@@ -1164,6 +1167,7 @@ func (ck *checker) writeEvidence(wall time.Duration, nViol int, knownSeen []stri
 		"known_findings_seen": knownSeen,
 		"watchdog_kills":      ck.watchdogKills,
 		"oom_worker_deaths":   ck.oomDeaths,
+		"distinct_schedules":  distinctSched,
 		"regression_replays":  ck.regressionRan,
 		"workers":             ck.workers,
 	}
